@@ -917,3 +917,448 @@ def replay_mirror(cfg, oracle, scripts, schedule):
             s = s2
         obs.append(observe(cfg, oracle, s))
     return obs
+
+
+# ----------------------------------------------------------------------------------------
+# (3) schedule trees and the digest compared inside Coq (Model/Client.v: mix, digest_trie)
+# ----------------------------------------------------------------------------------------
+DIGEST_K = 6364136223846793005
+DIGEST_MASK = (1 << 63) - 1
+
+
+def mix(acc, obs):
+    a = (acc * DIGEST_K + 77) & DIGEST_MASK
+    for x in obs:
+        if not 0 <= x < 64:
+            raise HarnessError('observed field %r does not fit the packing' % (x,))
+        a = (a * DIGEST_K + x + 1) & DIGEST_MASK
+    return a
+
+
+class TrieNode(object):
+    __slots__ = ('obs', 'kids')
+
+    def __init__(self):
+        self.obs = None
+        self.kids = {}
+
+
+def trie_insert(root, path, obs, problems):
+    """obs[k] = observation after path[:k]"""
+    node = root
+    for k in range(len(obs)):
+        if node.obs is None:
+            node.obs = obs[k]
+        elif node.obs != obs[k]:
+            problems.append(('nondeterministic', path[:k], node.obs, obs[k]))
+        if k < len(path):
+            nxt = node.kids.get(path[k])
+            if nxt is None:
+                nxt = node.kids[path[k]] = TrieNode()
+            node = nxt
+
+
+def tid_term(t):
+    kind, i = t
+    if kind == 'C':
+        return 'c%d' % i if i < 4 else '(cN %d)' % i
+    return 's%d' % i if i < 6 else '(sN %d)' % i
+
+
+def trie_term_and_digest(root):
+    """Gallina term of the schedule tree and the pre-order digest of its observations
+    (iterative: trees are up to ~100 deep but wide)."""
+    acc = [0]
+    nodes = [0]
+
+    def rec(node):
+        acc[0] = mix(acc[0], node.obs)
+        nodes[0] += 1
+        parts = []
+        for t, k in node.kids.items():
+            parts.append((tid_term(t), rec(k)))
+        s = 'KNil'
+        for tt, kt in reversed(parts):
+            s = '(KK %s %s %s)' % (tt, kt, s)
+        return '(Nd %s)' % s
+
+    old = sys.getrecursionlimit()
+    sys.setrecursionlimit(max(old, 20000))
+    try:
+        term = rec(root)
+    finally:
+        sys.setrecursionlimit(old)
+    return term, acc[0], nodes[0]
+
+
+def scripts_term(scripts):
+    return '[%s]' % '; '.join('[%s]' % '; '.join(OPNAME[x] for x in s) for s in scripts)
+
+
+def bfs_paths(cfg, o, scripts, max_states=3000000):
+    """Schedules covering every transition of the mirror's reachable state graph: the BFS-tree
+    path to a state followed by each non-tree transition out of it, plus the tree path to
+    every terminal state. Returns (paths, nstates, nedges, nterminal)."""
+    s0 = init_state(scripts)
+    ids = {s0: 0}
+    parent = [None]          # (parent id, tid)
+    states = [s0]
+    nontree = []             # (src id, tid)
+    terminal = []
+    nedges = 0
+    k = 0
+    while k < len(states):
+        s = states[k]
+        any_edge = False
+        for t in tids(s):
+            s2 = step(cfg, o, s, t)
+            if s2 is None:
+                continue
+            any_edge = True
+            nedges += 1
+            j = ids.get(s2)
+            if j is None:
+                j = len(states)
+                ids[s2] = j
+                states.append(s2)
+                parent.append((k, t))
+                if j > max_states:
+                    raise RuntimeError('state space too large')
+            else:
+                nontree.append((k, t))
+        if not any_edge:
+            terminal.append(k)
+        k += 1
+
+    def treepath(j):
+        p = []
+        while parent[j] is not None:
+            j, t = parent[j]
+            p.append(t)
+        p.reverse()
+        return p
+
+    paths = [treepath(k) + [t] for (k, t) in nontree] + [treepath(k) for k in terminal]
+    return paths, len(states), nedges, len(terminal)
+
+
+def decode(obs, nclients):
+    """structured view of an observation vector"""
+    d = {'launches': obs[0], 'popens': obs[1], 'attempts': obs[2], 'conn': obs[3:7], 'handle': obs[7],
+         'lock': obs[8], 'nstarters': obs[9], 'clients': [], 'starters': []}
+    k = 10
+    for _ in range(nclients):
+        ne = obs[k + 6]
+        d['clients'].append({'remaining': obs[k], 'loc': tuple(obs[k + 1:k + 4]), 'answers': obs[k + 4],
+                             'enabled': obs[k + 5], 'exns': obs[k + 7:k + 7 + ne]})
+        k += 7 + ne
+    for _ in range(d['nstarters']):
+        d['starters'].append({'loc': tuple(obs[k:k + 3]), 'enabled': obs[k + 3], 'exn': obs[k + 4]})
+        k += 5
+    return d
+
+
+STARTUP_EXNS = (EXN_CODE['LaunchErr'], EXN_CODE['TimeoutErr'], EXN_CODE['RuntimeErr'])
+
+
+def property_failures(obs, scripts, oracle):
+    """DIRECT evaluation of C16 on one observed state of the real class (no model involved).
+    Returns a list of strings (empty = the state is fine)."""
+    d = decode(obs, len(scripts))
+    bad = []
+    ok_oracle = all(oracle.popen) and all(c == COK for c in oracle.conn)
+    closefree = all(CLOSE not in s for s in scripts)
+    exns = [e for c in d['clients'] for e in c['exns']]
+    sexn = [s['exn'] for s in d['starters'] if s['exn']]
+    if EXN_CODE['TypeErr'] in exns:
+        bad.append('an operation raised TypeError (close() must send the close request)')
+    if 99 in exns or 99 in sexn:
+        bad.append('an operation raised an unexpected exception class')
+    if ok_oracle:
+        if any(e in STARTUP_EXNS for e in exns) or sexn:
+            bad.append('start-up exception although launch and connect succeed')
+        if closefree:
+            if d['launches'] > 1:
+                bad.append('%d servers launched in one session' % d['launches'])
+            if exns:
+                bad.append('a caller observed an exception (codes %r) in a close-free run' % (exns,))
+    live = [c for c in d['clients'] if c['remaining']]
+    active = [s for s in d['starters'] if s['loc'][2] not in (6,)]
+    if not any(c['enabled'] for c in d['clients']) and not any(s['enabled'] for s in d['starters']):
+        if live or active:
+            bad.append('deadlock: unfinished threads and none can run')
+        elif ok_oracle and closefree:
+            ncalls = sum(1 for s in scripts for x in s if x == CALL)
+            nops = sum(len(s) for s in scripts)
+            if sum(c['answers'] for c in d['clients']) != ncalls:
+                bad.append('not every call was answered')
+            if nops and d['launches'] != 1:
+                bad.append('%d servers launched, expected exactly 1' % d['launches'])
+    return bad
+
+
+def run_job(job):
+    """Worker: explore (or take the given schedules), replay on the real class, compare with the
+    mirror exactly, evaluate the property directly, return Coq cases + statistics."""
+    import time as _time
+    t0 = _time.time()
+    cfg = Cfg(*job['cfg'])
+    o = Oracle(*job['oracle'])
+    scripts = [tuple(s) for s in job['scripts']]
+    res = {'scripts': scripts, 'oracle': o.key(), 'cases': [], 'mismatch': [], 'direct': [], 'problems': [],
+           'nodes': 0, 'steps': 0, 'paths': 0, 'states': 0, 'edges': 0, 'kind': job['kind'],
+           'branches': {}, 'terminals': 0}
+    if job['kind'] == 'exhaustive':
+        paths, ns, ne, nt = bfs_paths(cfg, o, scripts)
+        res['states'], res['edges'], res['terminals'] = ns, ne, nt
+        if job.get('sample') and len(paths) > job['sample']:
+            import random as _random
+            rng = _random.Random(job.get('seed', 0))
+            paths = rng.sample(paths, job['sample'])
+            res['sampled'] = True
+    elif job['kind'] == 'walks':
+        paths = None
+    else:
+        paths = [[tuple(t) for t in p] for p in job['schedules']]
+    chunk = job.get('chunk', 4000)
+    root = TrieNode()
+    inroot = 0
+    seen_fail = set()
+
+    def flush():
+        nonlocal root, inroot
+        if root.obs is not None:
+            term, dg, n = trie_term_and_digest(root)
+            res['cases'].append((term, dg, n))
+            res['nodes'] += n
+        root = TrieNode()
+        inroot = 0
+
+    def account(path, obs):
+        nonlocal inroot
+        res['paths'] += 1
+        res['steps'] += len(path)
+        mo = replay_mirror(cfg, o, scripts, path)
+        if mo != obs:
+            k = next(i for i in range(len(obs)) if i >= len(mo) or mo[i] != obs[i])
+            if len(res['mismatch']) < 5:
+                res['mismatch'].append({'schedule': path[:k], 'real': obs[k], 'model': mo[k] if k < len(mo) else None})
+            else:
+                res['mismatch'].append(None)
+        for k, ob in enumerate(obs):
+            fails = property_failures(ob, scripts, o)
+            if fails:
+                key = tuple(fails)
+                if key not in seen_fail and len(res['direct']) < 5:
+                    seen_fail.add(key)
+                    res['direct'].append({'schedule': path[:k], 'what': fails, 'observation': ob})
+                break
+        trie_insert(root, path, obs, res['problems'])
+        inroot += 1
+        if inroot >= chunk:
+            flush()
+
+    if paths is not None:
+        for p in paths:
+            obs, prob = replay_real(scripts, o, p)
+            res['problems'] += prob
+            account(p, obs)
+    else:
+        import random as _random
+        rng = _random.Random(job['seed'])
+        for _w in range(job['walks']):
+            with RealRun(scripts, o) as run:
+                obs = [run.observe()]
+                path = []
+                limit = job.get('maxlen', 400)
+                while len(path) < limit:
+                    en = run.enabled_tids()
+                    if not en:
+                        break
+                    if rng.random() < 0.08:
+                        alltids = [(t.kind, t.idx) for t in run.clients + run.starters]
+                        tid = rng.choice(alltids + [('S', len(run.starters)), ('C', len(run.clients))])
+                    elif rng.random() < 0.5 and path and path[-1] in en:
+                        tid = path[-1]          # longer runs of one thread reach deeper states
+                    else:
+                        tid = rng.choice(en)
+                    run.step(tid)
+                    path.append(tid)
+                    obs.append(run.observe())
+                res['problems'] += run.problems
+            account(path, obs)
+    flush()
+    res['secs'] = _time.time() - t0
+    return res
+
+
+# ----------------------------------------------------------------------------------------
+# (4) real-subprocess part (direct evaluator; run in a fresh interpreter: `python c16_sched.py real`)
+# ----------------------------------------------------------------------------------------
+def real_subprocess_checks():
+    import json
+    import os
+    import subprocess
+    import time
+    import supp.remote as R
+
+    import threading as _th
+    per_thread = {}
+    RealPopen = subprocess.Popen
+
+    class _Launched(object):
+        """the list of server processes launched by the calling thread (one list per part)"""
+
+        def _l(self):
+            return per_thread.setdefault(_th.get_ident(), [])
+
+        def append(self, p):
+            self._l().append(p)
+
+        def __len__(self):
+            return len(self._l())
+
+        def __getitem__(self, k):
+            return self._l()[k]
+
+    launched = _Launched()
+
+    class CountingPopen(RealPopen):
+        def __init__(self, *a, **kw):
+            RealPopen.__init__(self, *a, **kw)
+            launched.append(self)
+
+    subprocess.Popen = CountingPopen
+    out = {}
+
+    def wait_exit(p, limit=30.0):
+        t0 = time.time()
+        while time.time() - t0 < limit:
+            if p.poll() is not None:
+                return round(time.time() - t0, 2)
+            time.sleep(0.05)
+        return None
+
+    def attempt(name, fn):
+        try:
+            out[name] = fn()
+        except BaseException as e:      # noqa
+            import traceback
+            out[name] = {'ok': False, 'what': 'harness/impl exception %s: %s' % (type(e).__name__, e),
+                         'traceback': traceback.format_exc()[-1500:]}
+
+    # (a) close() ends the session, the server exits, the client works again with ONE new server
+    def part_a():
+        r = {'ok': False}
+        n0 = len(launched)
+        env = R.Environment()
+        try:
+            v1 = env.eval('return 41 + 1')
+            r['first_reply'] = v1
+            r['launched_by_first_call'] = len(launched) - n0
+            p1 = launched[-1]
+            try:
+                env.close()
+                r['close_exception'] = None
+            except Exception as e:
+                r['close_exception'] = '%s: %s' % (type(e).__name__, e)
+            r['conn_attr_after_close'] = hasattr(env, 'conn')
+            r['server_exit_after_close_s'] = wait_exit(p1, 30.0 if r['close_exception'] is None else 3.0)
+            r['server_returncode'] = p1.poll()
+            if r['close_exception'] is None:
+                v2 = env.eval('return 6 * 7')
+                r['reply_after_close'] = v2
+                r['launched_total'] = len(launched) - n0
+                p2 = launched[-1]
+                r['new_server_alive'] = p2.poll() is None and p2 is not p1
+                v3 = env.eval('return 1')
+                r['launched_after_third_call'] = len(launched) - n0
+                r['ok'] = (v1 == 42 and v2 == 42 and v3 == 1 and r['launched_by_first_call'] == 1
+                           and r['server_exit_after_close_s'] is not None and not r['conn_attr_after_close']
+                           and r['launched_total'] == 2 and r['new_server_alive']
+                           and r['launched_after_third_call'] == 2)
+        finally:
+            for p in launched[n0:]:
+                if p.poll() is None:
+                    p.kill()
+                p.wait()
+        return r
+
+    # (b) the server exits on its own when the client end of the connection disappears
+    def part_b():
+        r = {'ok': False}
+        n0 = len(launched)
+        env = R.Environment()
+        try:
+            r['reply'] = env.eval('return 7')
+            p = launched[-1]
+            r['alive_before'] = p.poll() is None
+            env.conn.close()            # no close request is sent: the pipe just goes away
+            r['server_exit_after_disconnect_s'] = wait_exit(p)
+            r['server_returncode'] = p.poll()
+            r['ok'] = r['reply'] == 7 and r['alive_before'] and r['server_exit_after_disconnect_s'] is not None
+        finally:
+            for p in launched[n0:]:
+                if p.poll() is None:
+                    p.kill()
+                p.wait()
+        return r
+
+    # (c) launch failure raises the documented timeout exception; a later call can retry
+    def part_c():
+        r = {'ok': False}
+        n0 = len(launched)
+        env = R.Environment(executable='/bin/false')
+        try:
+            t0 = time.time()
+            try:
+                env.eval('return 1')
+                r['first'] = 'no exception'
+            except Exception as e:
+                r['first'] = '%s: %s' % (type(e).__name__, str(e)[:80])
+                r['first_is_documented_timeout'] = (type(e) is Exception and
+                                                    str(e).startswith('Supp server launching timeout exceed'))
+            r['first_took_s'] = round(time.time() - t0, 2)
+            r['conn_attr_after_failure'] = hasattr(env, 'conn')
+            r['lock_free_after_failure'] = env.prepare_lock.acquire(False)
+            if r['lock_free_after_failure']:
+                env.prepare_lock.release()
+            import sys as _sys
+            env.executable = _sys.executable
+            r['retry_reply'] = env.eval('return 9')
+            r['launched_total'] = len(launched) - n0
+            env.close()
+            r['exit_after_close_s'] = wait_exit(launched[-1])
+            # a missing executable fails at once with the OS error (no server process at all)
+            env2 = R.Environment(executable='/nonexistent/python')
+            try:
+                env2.eval('return 1')
+                r['missing_executable'] = 'no exception'
+            except Exception as e:
+                r['missing_executable'] = type(e).__name__
+            r['ok'] = (r.get('first_is_documented_timeout') is True and not r['conn_attr_after_failure']
+                       and r['lock_free_after_failure'] and r['retry_reply'] == 9 and r['launched_total'] == 2
+                       and r['exit_after_close_s'] is not None and r['missing_executable'] == 'FileNotFoundError')
+        finally:
+            for p in launched[n0:]:
+                if p.poll() is None:
+                    p.kill()
+                p.wait()
+        return r
+
+    def ab():
+        attempt('a', part_a)
+        attempt('b', part_b)
+
+    ths = [_th.Thread(target=ab), _th.Thread(target=attempt, args=('c', part_c))]
+    for t in ths:
+        t.start()
+    for t in ths:
+        t.join()
+    subprocess.Popen = RealPopen
+    print('C16REAL ' + json.dumps(out, default=repr))
+
+
+if __name__ == '__main__':
+    if len(sys.argv) > 1 and sys.argv[1] == 'real':
+        real_subprocess_checks()
